@@ -84,7 +84,7 @@ def step (d : DS) (toks : List String) : Option (DS × String) :=
     let lm ← parseDec lm; let sf ← parseDec sf; let pth ← parseDec pth; let rmin ← parseDec rmin
     let el ← parseInt el; let mo ← parseNat mo; let fp ← parseDec fp; let ip ← parseDec ip
     let ie ← parseB ie; let wl ← parseB wl; let rc ← parseB rc
-    let p : Params := { d.s.params with leverageMax := lm, safetyFactor := sf, poolOpenThreshold := pth, rateMin := rmin, epochLength := el, maxOpen := mo, fcPct := fp, fcAddr := fa, iipPct := ip, iipAddr := ia, iipEnabled := ie, whitelisting := wl, rowanCollateral := rc }
+    let p : Params := { d.s.params with leverageMax := lm, safetyFactor := sf, poolOpenThreshold := pth, rateMin := rmin, epochLength := el, maxOpen := mo, fcPct := fp, fcAddr := (if fa = "-" then "" else fa), iipPct := ip, iipAddr := (if ia = "-" then "" else ia), iipEnabled := ie, whitelisting := wl, rowanCollateral := rc }
     some ({ d with s := { d.s with params := p } }, "ok")
   | ["cfg", "pools", en, cl] =>
     some ({ d with s := { d.s with params := { d.s.params with pools := splitList en ',', closedPools := splitList cl ',' } } }, "ok")
@@ -127,6 +127,12 @@ def step (d : DS) (toks : List String) : Option (DS × String) :=
     let pools ← parseAll parsePool ((stripPrefix ps "P=").getD "?")
     let mtps ← parseAll parseMtp ((stripPrefix ms "M=").getD "?")
     some (d, toString (openHealthOK (withObserved d pools mtps) a (← parseNat id)))
+  | ["chk", "c01.marginbacking", _tag, ps, ds] => do
+    let pools ← parseAll parsePool ((stripPrefix ps "P=").getD "?")
+    let bals ← (splitList ((stripPrefix ds "D=").getD "?") ';').mapM (fun x => match splitList x ',' with
+      | [dn, amt] => (parseNat amt).map (fun a => (dn, a))
+      | _ => none)
+    some (d, toString (backingOK pools bals))
   | ["chk", "c13.forced", _tag, h, sf] => do some (d, toString (forcedOK (← parseDec h) (← parseDec sf)))
   | ["chk", "c13.closer", _tag, signer, owner, adm] => do some (d, toString (closerOK signer owner (← parseB adm)))
   | ["chk", "c13.pair", _tag, coll, cust] => some (d, toString (pairOK { (default : Mtp) with coll := coll, cust := cust }))
